@@ -307,3 +307,131 @@ func VerifHarness_TwoRun() {
 	verifAssert(verifSameComments(ra.comments, rb.comments), "same file-level comments in both runs")
 	verifAssert(verifSameDiags(ra.diags, rb.diags, 0, 0), "same reader diagnostics in both runs")
 }
+
+// VerifHarness_Insert: inserting a complete excluded segment between two lines of a file only shifts what follows.
+// File A has n lines (classes acls, excluded lines comment-free); A' is A with a segment inserted before line `at`
+// (0..n), at a point where the reference is outside every excluded region. Parameters: form 0 = ignore/begin line,
+// k payload lines, ignore/end line; form 1 = ignore/next-line line, one payload line; form 2 = one line ending in an
+// ignore/line comment (the text before the comment is the payload). plen = bytes per inserted line; p as in TwoRun.
+// Expected: A”s stream is A's stream with the segment's image inserted — delimiter lines verbatim, payload blank,
+// newlines kept —, same file-level comments, same diagnostics with line numbers after the insertion point shifted.
+func VerifHarness_Insert() {
+	n, p := verifParam("n"), verifParam("p")
+	acls, lens := verifParam("acls"), verifParam("lens")
+	at, form, k, plen := verifParam("at"), verifParam("form"), verifParam("k"), verifParam("plen")
+	var A []verifLine
+	ok := true
+	for i := 0; i < n; i++ {
+		a := verifMkLine("a"+verifItoa(i), verifDigit(lens, i), verifDigit(acls, i), true)
+		ok = verifAnd(ok, a.ok)
+		A = append(A, a)
+	}
+	m := verifMark(A)
+	for i := 0; i < n; i++ {
+		ok = verifAnd(ok, !verifAnd(m.payload[i], A[i].typ != comments.UnknownType))
+	}
+	ok = verifAnd(ok, m.normalAt[at])
+
+	// the segment; kind: 1 delimiter (kept verbatim), 2 payload (blanked), 3 line with ignore/line (blanked before the comment)
+	var seg []verifLine
+	var kind []int
+	pcls := 0
+	if p == 1 {
+		pcls = 4
+	}
+	sigNext, sigFile, sigBegin, sigKept := false, false, false, false
+	delim := func(tag string, t comments.Type) {
+		l := verifMkLine(tag, plen, 1, true)
+		ok = verifAnd(ok, verifAnd(l.ok, l.typ == t))
+		seg, kind = append(seg, l), append(kind, 1)
+	}
+	payload := func(tag string, inBlock bool) {
+		l := verifMkLine(tag, plen, pcls, true)
+		ok = verifAnd(ok, l.ok)
+		t := l.typ
+		ok = verifAnd(ok, t != comments.IgnoreFileType)
+		if inBlock {
+			ok = verifAnd(ok, t != comments.IgnoreEndType)
+			sigNext = verifOr(sigNext, t == comments.IgnoreNextLineType)
+			sigBegin = verifOr(sigBegin, t == comments.IgnoreBeginType)
+		} else {
+			ok = verifAnd(ok, t != comments.IgnoreLineType)
+			sigKept = verifOr(sigKept, t != comments.UnknownType)
+		}
+		sigFile = verifOr(sigFile, verifIsCollected(t))
+		seg, kind = append(seg, l), append(kind, 2)
+	}
+	switch form {
+	case 0:
+		delim("s0", comments.IgnoreBeginType)
+		for j := 0; j < k; j++ {
+			payload("sp"+verifItoa(j), true)
+		}
+		delim("s1", comments.IgnoreEndType)
+	case 1:
+		delim("s0", comments.IgnoreNextLineType)
+		payload("sp0", false)
+	default:
+		l := verifMkLine("s0", plen, 1, true)
+		ok = verifAnd(ok, verifAnd(l.ok, l.typ == comments.IgnoreLineType))
+		seg, kind = append(seg, l), append(kind, 3)
+	}
+	verifAssume(ok)
+	verifSig("C10-nextline-in-block", sigNext)
+	verifSig("C10-file-comment-in-excluded", sigFile)
+	verifSig("C10-begin-in-block", sigBegin)
+	verifSig("C10-comment-on-skipped-line", sigKept)
+
+	var A2 []verifLine
+	var src []int // index into A, or -1-index into seg
+	for i := 0; i <= n; i++ {
+		if i == at {
+			for j := range seg {
+				A2, src = append(A2, seg[j]), append(src, -1-j)
+			}
+		}
+		if i < n {
+			A2, src = append(A2, A[i]), append(src, i)
+		}
+	}
+	bufcap := verifParam("bufcap")
+	ra := verifRun(A, bufcap)
+	rb := verifRun(A2, bufcap)
+
+	verifReach("end")
+	verifObserve("ncomments", len(ra.comments))
+	verifObserve("ndiags", len(ra.diags))
+	verifAssert(verifAnd(ra.eof, rb.eof), "the read loop ends with an error (EOF) in both runs")
+	verifAssert(len(rb.stream) == len(verifContent(A2)) && len(ra.stream) == len(verifContent(A)), "the reader delivers exactly as many bytes as the file has")
+	verifAssert(rb.lineno == n+len(seg) && len(rb.lines) == n+len(seg) && len(ra.lines) == n, "line count grows by the length of the segment")
+	// stream and content lines, line by line
+	same := true
+	posA := make([]int, n+1)
+	for i := 0; i < n; i++ {
+		posA[i+1] = posA[i] + len(A[i].text) + 1
+	}
+	pos := 0
+	for x, l := range A2 {
+		for j := 0; j < len(l.text); j++ {
+			got := rb.stream[pos+j]
+			switch {
+			case src[x] >= 0:
+				same = verifAnd(same, got == ra.stream[posA[src[x]]+j])
+			case kind[-1-src[x]] == 1:
+				same = verifAnd(same, got == l.text[j])
+			case kind[-1-src[x]] == 2:
+				same = verifAnd(same, got == ' ')
+			default:
+				same = verifAnd(same, verifOr(verifAnd(j < l.off, got == ' '), verifAnd(j >= l.off, got == l.text[j])))
+			}
+		}
+		same = verifAnd(same, rb.stream[pos+len(l.text)] == '\n')
+		same = verifAnd(same, rb.lines[x] == rb.stream[pos:pos+len(l.text)])
+		pos += len(l.text) + 1
+	}
+	if p == 0 || len(ra.diags) == 0 || len(rb.diags) == 0 {
+		verifAssert(same, "the stream is A's stream with the blanked segment inserted, and the content lines spell the stream")
+	}
+	verifAssert(verifSameComments(ra.comments, rb.comments), "same file-level comments with and without the segment")
+	verifAssert(verifSameDiags(ra.diags, rb.diags, at+1, len(seg)), "same reader diagnostics, line numbers after the insertion point shifted by the segment length")
+}
